@@ -41,5 +41,8 @@
                  (< (+ i0 (* 2 (+ (* by bxn) bx)) 1) sn))))
 ; @obligation L-fold-mul adding d once per call is multiplication: (i+1)*d = i*d + d (step of the ghost fold used for C10.total)
 (assert (not (= (* (+ i 1) d) (+ (* i d) d))))
+; @obligation L-half-double the accumulator constructor reserves (2*bins_x)*bins_y numbers per distribution; half of that is the bin count bins_x*bins_y, and nothing wraps for 1 <= bins <= 1024
+(declare-const hx Int) (declare-const hy Int)
+(assert (not (=> (and (<= 1 hx) (<= hx 1024) (<= 1 hy) (<= hy 1024)) (and (= (div (* (* 2 hx) hy) 2) (* hx hy)) (<= (* (* 2 hx) hy) 2097152)))))
 ; @obligation L-sanity_sat_expected the hypotheses are satisfiable
 (assert (and (<= 0 i) (< i D) (<= D 1024) (<= 1 b) (<= b 1048576) (= n (* D (+ b 1)))))
